@@ -595,7 +595,9 @@ func buildScenarios(c *vlib.Ctx, haveOther bool) []Scenario {
 			if !q {
 				add(op, o, "large", "same", "")
 				add(op, o, "empty", "other", "")
-				add(op, o, "small", "explicit", "")
+				if op != opWriteFile { // renameio.WriteFile has no temp-dir option: its temporary location is always $TMPDIR or the destination directory
+					add(op, o, "small", "explicit", "")
+				}
 			}
 		}
 	}
